@@ -18,19 +18,19 @@ def main():
     def keep(h):
         return any(s["a"] == "query" and (s["must"] or s["may"]) for s in h)
     hs, total = sgcommon.histories(ctx, "SymbolGraph_gen_c13t.cfg" if thorough else "SymbolGraph_gen_c13.cfg", keep,
-                                   None if thorough else 6000)
+                                   40000 if thorough else 6000)
     # second family: Person/Company histories in which relations are asserted between queries (the registry must not
     # grow a second node for an instance it already knows)
     hs_b, total_b = sgcommon.histories(ctx, "SymbolGraph_gen_c14.cfg",
                                        lambda h: any(s["a"] == "relate" for s in h) and any(s["a"] in ("drop", "collect") for s in h),
-                                       20000 if thorough else 2500)
+                                       10000 if thorough else 2500)
     ctx.cov["histories_in_bound_relate_family"] = total_b
     # third family: instances that come into being without calling the class - copy, deepcopy, dataclasses.replace and
     # reconstruction from a DAO (to_dao(p).from_dao()) of a live instance
     ctx.run_tlc("SymbolGraph", "SymbolGraph_mc_modes.cfg", expect="ok")
     ctx.run_tlc("SymbolGraph", "SymbolGraph_sw_UnregisteredModes.cfg", expect="violation")
     hs_m, total_m = sgcommon.histories(ctx, "SymbolGraph_gen_c13m.cfg",
-                                       lambda h: keep(h) and any(s.get("mode") for s in h), 12000 if thorough else 1500)
+                                       lambda h: keep(h) and any(s.get("mode") for s in h), 8000 if thorough else 1500)
     ctx.cov["histories_in_bound_creation_modes_family"] = total_m
     hs = hs + hs_b + hs_m
     cases = [{"mode": "c13", "h": h} for h in hs]
